@@ -881,6 +881,50 @@ def memo_lookup(fn: Any, args: Sequence[Any], kwargs: Dict[str, Any]) -> Any:
     return table, key, table.get(key, _NoMemo)
 
 
+def import_time_effects(f: Folder, module: Any, name: str) -> None:
+    """a module-level object with an identity has just come into being (NAME = K(...), NAME = {} ...): what the rest of the
+    module does to it *while the module is executed* happens now, in source order - decorators `@NAME.method(...)` on the
+    functions and methods of the module (a registry being filled), top-level statements `NAME.method(...)` and
+    `NAME[key] = value`.  (Only the module that defines the name is looked at.)"""
+    from .fold import PROCESS_STATE, call_value
+
+    def mentions(node: ast.AST) -> bool:
+        return any(isinstance(x, ast.Name) and x.id == name for x in ast.walk(node))
+
+    def decorate(fn: Any) -> None:
+        decos = nontrivial_decorators(fn)
+        if not any(mentions(d) for d in decos):
+            return
+        slot = ("decorated", fn.qualname)
+        if slot in PROCESS_STATE:
+            return
+        v: Any = _RawMethod(fn) if fn.cls is not None else _RawFunction(_RepoShim(f.repo), fn, f.hook, ())
+        for d in reversed(decos):
+            dec = Folder({}, f.repo, fn.module, fn.cls, f.hook).fold(d)
+            v = call_value(f, dec, [v])
+        PROCESS_STATE[slot] = (None, v)
+
+    seen_def = False
+    for st in module.tree.body:
+        if isinstance(st, (ast.Assign, ast.AnnAssign)) and any(isinstance(t, ast.Name) and t.id == name for t in (st.targets if isinstance(st, ast.Assign) else [st.target])):
+            seen_def = True
+            continue
+        if not seen_def:
+            continue
+        if isinstance(st, ast.FunctionDef) and st.name in module.functions:
+            decorate(module.functions[st.name])
+        elif isinstance(st, ast.ClassDef):
+            k = module.classes.get(st.name) if hasattr(module, "classes") else None
+            if k is not None:
+                for sub in st.body:
+                    if isinstance(sub, ast.FunctionDef) and sub.name in k.methods:
+                        decorate(k.methods[sub.name])
+        elif isinstance(st, ast.Expr) and isinstance(st.value, ast.Call) and (dotted(st.value.func) or "").split(".")[0] == name:
+            Evaluator({}, f.repo, module, None, f.hook)._expr_stmt(st.value)
+        elif isinstance(st, (ast.Assign, ast.AugAssign)) and any(isinstance(t, ast.Subscript) and (dotted(t.value) or "").split(".")[0] == name for t in (st.targets if isinstance(st, ast.Assign) else [st.target])):
+            Evaluator({}, f.repo, module, None, f.hook)._stmt(st)
+
+
 def nontrivial_decorators(fn: Any) -> List[ast.expr]:
     out = []
     for d in fn.node.decorator_list:
@@ -923,11 +967,18 @@ class _BoundMethod(Abstract):
             # the name is bound to what the decorators (evaluated from source) make of the function
             from .fold import call_value
 
-            v: Any = _RawMethod(fn)
-            for d in reversed(decos):
-                dec = Folder({}, f.repo, fn.module, fn.cls, f.hook).fold(d)
-                v = call_value(f, dec, [v])
-            return call_value(f, v, [self.obj] + list(args), kwargs)
+            from .fold import PROCESS_STATE
+
+            slot = ("decorated", fn.qualname)
+            if slot not in PROCESS_STATE:
+                # decorators run once, when the class body is executed - not at every call (one with a side effect, such as
+                # entering the function into a registry, must not repeat it)
+                v: Any = _RawMethod(fn)
+                for d in reversed(decos):
+                    dec = Folder({}, f.repo, fn.module, fn.cls, f.hook).fold(d)
+                    v = call_value(f, dec, [v])
+                PROCESS_STATE[slot] = (None, v)
+            return call_value(f, PROCESS_STATE[slot][1], [self.obj] + list(args), kwargs)
         node = self.obj._ctx_.inl(fn)
         a = node.args
         params = [x.arg for x in a.posonlyargs + a.args]
@@ -1215,11 +1266,16 @@ def call_fn(ctx: Any, fn: Any, args: Sequence[Any], kwargs: Optional[Dict[str, A
             # the name is bound to what the decorators (evaluated from source) make of the function
             from .fold import _CURRENT, call_value
 
-            v: Any = _RawFunction(ctx, fn, hook, tuple(keep))
+            from .fold import PROCESS_STATE
+
             f0 = Folder({}, ctx.repo, fn.module, None, hook)
-            for d in reversed(decos):
-                v = call_value(f0, Folder({}, ctx.repo, fn.module, None, hook).fold(d), [v])
-            return call_value(_CURRENT[-1] if _CURRENT else f0, v, list(args), dict(kwargs or {}))
+            slot = ("decorated", fn.qualname)
+            if slot not in PROCESS_STATE:
+                v: Any = _RawFunction(ctx, fn, hook, tuple(keep))
+                for d in reversed(decos):
+                    v = call_value(f0, Folder({}, ctx.repo, fn.module, None, hook).fold(d), [v])
+                PROCESS_STATE[slot] = (None, v)  # (decorators run once per process, when the module is executed)
+            return call_value(_CURRENT[-1] if _CURRENT else f0, PROCESS_STATE[slot][1], list(args), dict(kwargs or {}))
     if is_memoised(fn) and not raw:
         table_, key_, hit_ = memo_lookup(fn, list(args), dict(kwargs or {}))
         if hit_ is not _NoMemo:
